@@ -26,8 +26,11 @@ def run_worker(wd, job, name):
         json.dump(job, f)
     py = NP_PY if job.get('np') else sys.executable
     env = dict(os.environ)
-    p = subprocess.run([py, os.path.join(ROOT, 'harness', 'workers', 'thresha_worker.py'), jp, op],
-                       capture_output=True, text=True, env=env, timeout=1800)
+    try:
+        p = subprocess.run([py, os.path.join(ROOT, 'harness', 'workers', 'thresha_worker.py'), jp, op],
+                           capture_output=True, text=True, env=env, timeout=300)
+    except subprocess.TimeoutExpired:
+        return None, 'worker timed out after 300 s (implementation hangs)'
     if p.returncode != 0:
         return None, p.stderr[-1500:]
     with open(op) as f:
